@@ -187,7 +187,7 @@ func VP_C16_access() {
 	}
 	r := NewRunner()
 	r.SetThis(d.top)
-	got, err := r.resolve(context.Background(), expr)
+	got, err := vpExact(r, context.Background(), expr)
 	vpObserve("path", ri, depth, err != nil)
 	if root == "abs" && depth == 0 {
 		_, isFunc := got.(func(*decimal.Big) (*decimal.Big, error))
